@@ -16,6 +16,8 @@
         TpOnlySound    tponly holds only when no flagged pair has a mutual force on a massive body: restoring the massive
                        members to their Kepler state drops no interaction;
         CountsAgree    encN = |Members|, encNA counts the active members, the sub-integration runs iff encN >= 2.
+   A second family (built by the harness only) are fast fly-bys: two planets meeting inside the step with both end points far outside
+   the critical radius, impact parameter 0.3 .. 3 critical radii: flagged iff the impact parameter is below 1.1 critical radii.
    The harness builds every row as a real simulation, takes one MERCURIUS step and compares encounter_N, encounter_N_active,
    tponly_encounter and the compacted encounter_map with the row.                                                        *)
 EXTENDS Integers, FiniteSets, Sequences, TLC, Json
